@@ -668,7 +668,10 @@ def signature(s, o):
         ifc, a, b = ev_parts(s)
         if a[0] == ":i" and b[0] == ":i":
             return "edge values via %s: int pair types %s,%s" % (ifc, a[1], b[1])
-        return "edge values via %s: %s %s => %s" % (ifc, " ".join(a), " ".join(b), o)
+        rel = ""
+        if a[0] == b[0] and a[0] in (":m", ":s") and "~" not in (a[1], b[1]):
+            rel = " same length" if len(a[1]) == len(b[1]) else " different length"
+        return "edge values: %s/%s%s => %s" % (a[0], b[0], rel, o)
     if t[0] == ":i" and t[3] == ":i":
         return "int pair types %s,%s" % (t[1], t[4])
     return s + " => " + o
@@ -780,6 +783,14 @@ def shrink(s):
                     yield ev(ifc, ival(ta, c), " ".join(b))
                 for c in sorted(set(c for c in RLAT + [7, zb // 2] if abs(c) < abs(zb) and c != za and LO[tb_] <= c <= HI[tb_]), key=abs):
                     yield ev(ifc, " ".join(a), ival(tb_, c))
+        if a[0] == b[0] and a[0] in (":m", ":s") and "~" not in (a[1], b[1]):
+            # both payloads cut alike: the front half off, the first byte off, the last byte off
+            x = bytes.fromhex(a[1][1:]); y = bytes.fromhex(b[1][1:])
+            if len(x) > 0 and len(y) > 0:
+                for k in (min(len(x), len(y)) // 2, 1):
+                    if k > 0:
+                        yield ev(ifc, "%s %s" % (a[0], tb(x[k:])), "%s %s" % (b[0], tb(y[k:])))
+                yield ev(ifc, "%s %s" % (a[0], tb(x[:-1])), "%s %s" % (b[0], tb(y[:-1])))
         for (v, first) in ((a, True), (b, False)):
             if v[0] in (":m", ":s") and v[1] not in ("~", "$"):
                 x = bytes.fromhex(v[1][1:])
